@@ -36,7 +36,7 @@ ALL = {
    note=EX+"The 0.998/0.13 constants are f64-calibrated; a 1e-9 guard band accepts either obligation on the boundary.",
    technique="property-based testing: exact composition oracle + f64 round-trip with boundary-targeted generators", design="6/C07"),
  "C12": dict(
-   text="Exploration. Affine-space laws, component-wise operators and ElementWise families of Point1-3, midpoint, centroid (1-8 points) and homogeneous coordinates, with == over Q, Fp and i64.",
+   text="Exploration. Affine-space laws, component-wise operators and ElementWise families of Point1-3, midpoint, centroid (1-8 points) and homogeneous coordinates, with == over Q, Fp and i64; an f64 sub-check repeats the clauses with rounding-only tolerances where an exact field cannot look (magnitudes 1e+-140, homogeneous factors over 1e+-150 and within 8 ulps of 1, lists of up to 520 points).",
    note=EX,
    technique="property-based testing: per-component reference + affine laws over exact fields", design="6/C12"),
  "C13": dict(
